@@ -44,11 +44,11 @@ Notation get_ns := (get_ns hash).
 Notation token_id_from_name := (token_id_from_name hash valid_name).
 
 Ltac frag := match goal with E : NNS.get_frag_ns _ _ _ _ _ = Halt _ |- _ =>
-  apply get_frag_ns_halt in E; destruct E as (Hn & _ & _) end.
+  apply (get_frag_ns_halt hash valid_name valid_data str_ok) in E as (Hn & _ & _) end.
 Ltac adm := match goal with E : check_admin _ _ = Halt _ |- _ =>
   apply check_admin_halt in E; rename E into Ha end.
 Ltac own := match goal with E : check_owner_witness _ _ = Halt _ |- _ =>
-  apply check_owner_witness_halt in E; destruct E as [Hw Hl] end.
+  apply check_owner_witness_halt in E as [Hw Hl] end.
 Ltac cmte := match goal with E : check_committee _ = Halt _ |- _ =>
   apply check_committee_halt in E; rename E into Hc end.
 
@@ -107,7 +107,7 @@ Lemma check_record_halt c s name typ data t :
   exists ns, get_ns s t = Some ns /\ may_admin c ns = true.
 Proof.
   unfold check_record. intros H. inv_binds H. frag. adm.
-  injection H as <-. split; [assumption|]. eauto.
+  injection H as <-. split; [reflexivity|]. unfold NNS.get_ns. eexists. split; [exact Hn|exact Ha].
 Qed.
 
 (** safe methods return the state unchanged and notify nothing *)
@@ -131,14 +131,18 @@ Proof.
   - injection H as <- _ <-; auto.
 Qed.
 
-Ltac register_tac H :=
-  cbn [authorised]; inv_binds H; own;
-  match goal with E : is_valid ?ow = true |- _ => destruct ow as [ow'|]; [|discriminate E] end;
-  cbn [akey default] in Hw; rewrite Hw; cbn [andb];
+Ltac register_tac H name s :=
+  cbn [authorised]; inv_binds H;
+  match goal with E : check_owner_witness _ _ = Halt _ |- _ =>
+    let Hw := fresh "Hw" in let Hl := fresh "Hl" in
+    apply check_owner_witness_halt in E as [Hw Hl];
+    match goal with E2 : is_valid ?ow = true |- _ => destruct ow; [|discriminate E2] end;
+    cbn [akey default] in Hw; rewrite Hw; cbn [andb]
+  end;
   match goal with E : (if (2 <? ?l)%nat then _ else _) = Halt _ |- _ =>
     change l with (level name) in *; destruct (2 <? level name)%nat; [|reflexivity];
     change (join_dot (drop 1 (split_dot name))) with (parent_name name) in E;
-    destruct (get_ns s (parent_name name)) as [p|]; [|discriminate E];
+    destruct (get_ns s (parent_name name)); [|discriminate E];
     apply check_admin_halt in E; exact E
   end.
 
@@ -150,7 +154,7 @@ Lemma nexec_authorised c s o s' r ns :
 Proof.
   intros H. destruct o; cbn [NNS.nexec] in H; try (left; reflexivity).
   - (* Register *)
-    left. register_tac H.
+    left. register_tac H name s.
   - (* RegisterTLD *) left. cbn [authorised]. inv_binds H. cmte. exact Hc.
   - (* Transfer *)
     inv_binds H.
@@ -207,7 +211,7 @@ Proof.
     destruct o; try discriminate Ha; cbn [NNS.nexec] in He.
     + (* Register halting is authorised *)
       exfalso. assert (Hx : authorised c s (Register name owner email refresh retry expire ttl) = true); [|congruence].
-      clear Ha. register_tac He.
+      clear Ha. register_tac He name s.
     + exfalso. inv_binds He. discriminate He.
     + eauto.
     + exfalso. inv_binds He. discriminate He.
